@@ -550,11 +550,122 @@ theorem subsection_range (sec : SectionT K) (p q : K) :
   simp only [section_subsection, section_new, section_t_for_t]
   exact ⟨trivial, by ring⟩
 
+/-- the parameters at which `subdivide_offset` splits a section along its extremities (offset_scaling.rs:166-182): `0.0`, the retained
+    extremities and `1.0`, sorted, and then — THE REPAIR — `dedup_by(|a, b| (*a - *b).abs() < 0.01)` -/
+def splitParams (ext : List K) : List K :=
+  listDedupBy (listSortBy (fun a b => !(decide (a > b))) (([(0.0 : K)] ++ ext) ++ [(1.0 : K)])) (fun a b => decide (fabs (a - b) < (0.01 : K)))
+
+/-- THE WINDOWS OF THE REPAIRED CODE: for retained extremities (all in (0.01, 0.99), duplicates allowed) the windows of `splitParams` tile
+    [0,1] — the first starts at 0 (`dedup_by` keeps the first element), the last ends at 1 (every other element is below 0.99, so `1.0` is
+    never dropped) — there is at least one, each lies in [0,1], and EVERY WINDOW IS AT LEAST 0.01 LONG: no zero-length window can occur -/
+theorem split_params_spec (ext : List K) (hext : ∀ x ∈ ext, (0.01 : K) < x ∧ x < (0.99 : K)) :
+    Tiles 0 1 (windows2 (splitParams ext)) ∧ windows2 (splitParams ext) ≠ [] ∧
+    ∀ w ∈ windows2 (splitParams ext), 0 ≤ w.t0 ∧ w.t0 + (0.01 : K) ≤ w.t1 ∧ w.t1 ≤ 1 := by
+  unfold splitParams
+  obtain ⟨hperm, hsorted⟩ := sortPartialCmp_spec (([(0.0 : K)] ++ ext) ++ [(1.0 : K)])
+  generalize listSortBy (fun a b => !(decide (a > b))) (([(0.0 : K)] ++ ext) ++ [(1.0 : K)]) = L at hperm hsorted
+  have hmem : ∀ x, x ∈ L ↔ x = 0 ∨ x ∈ ext ∨ x = 1 := by
+    intro x; rw [hperm.mem_iff]; simp [lit0, lit1]
+  have hrange : ∀ x ∈ L, (0 : K) ≤ x ∧ x ≤ 1 := by
+    intro x hx
+    rcases (hmem x).1 hx with rfl | hx | rfl
+    · exact ⟨le_refl _, zero_le_one⟩
+    · obtain ⟨h1, h2⟩ := hext x hx
+      exact ⟨le_trans (by norm_num) h1.le, le_trans h2.le (by norm_num)⟩
+    · exact ⟨zero_le_one, le_refl _⟩
+  have hends := sorted_ends (lo := 0) (hi := 1) hsorted ((hmem 0).2 (Or.inl rfl)) ((hmem 1).2 (Or.inr (Or.inr rfl))) hrange
+  have hcount : L.count 1 = 1 := by
+    rw [hperm.count_eq]
+    have h0 : ext.count (1 : K) = 0 := by
+      rw [List.count_eq_zero]
+      intro h1; have := (hext 1 h1).2; norm_num at this
+    simp [List.count_append, List.count_cons, lit0, lit1, h0]
+  match L, hends, hcount, hsorted, hrange with
+  | p :: rest, hends, hcount, hsorted, hrange =>
+    have hp : p = 0 := by simpa using hends.1
+    have hrne : rest ≠ [] := by
+      intro e; rw [e] at hends; simp at hends; rw [hp] at hends; exact zero_ne_one hends.2
+    obtain ⟨init, hinit⟩ : ∃ init, rest = init ++ [1] := by
+      refine ⟨rest.dropLast, ?_⟩
+      have h2 := hends.2
+      rw [List.getLast?_cons_of_ne_nil hrne, List.getLast?_eq_some_getLast hrne] at h2
+      have h3 : rest.getLast hrne = 1 := by simpa using h2
+      rw [← h3]; exact (List.dropLast_append_getLast hrne).symm
+    subst hinit
+    have hnot1 : ∀ y ∈ p :: init, y ≠ 1 := by
+      intro y hy e
+      subst e
+      have : (p :: (init ++ [1])).count (1 : K) = (p :: init).count 1 + 1 := by
+        rw [← List.cons_append, List.count_append]; simp
+      have hpos : 0 < (p :: init).count (1 : K) := List.count_pos_iff.2 hy
+      omega
+    set D := listDedupByGo (fun a b => decide (fabs (a - b) < (0.01 : K))) p (init ++ [1]) with hD
+    show Tiles 0 1 (windows2 D) ∧ windows2 D ≠ [] ∧ ∀ w ∈ windows2 D, 0 ≤ w.t0 ∧ w.t0 + (0.01 : K) ≤ w.t1 ∧ w.t1 ≤ 1
+    have hsub : D.Sublist (p :: (init ++ [1])) := dedupGo_sublist _ _ _
+    have hDsorted : D.Pairwise (· ≤ ·) := hsorted.sublist hsub
+    have hDhead : D.head? = some 0 := by rw [hD, dedupGo_head, hp]
+    have hDlast : D.getLast? = some 1 := by
+      apply dedupGo_getLast
+      intro y hy
+      have hy1 : y ≠ 1 := hnot1 y hy
+      have hyL : y ∈ p :: (init ++ [1]) := by
+        rw [← List.cons_append]; exact List.mem_append_left _ hy
+      have hylt : y < (0.99 : K) := by
+        rcases (hmem y).1 hyL with rfl | hx | rfl
+        · norm_num
+        · exact (hext y hx).2
+        · exact absurd rfl hy1
+      have : ¬ (|1 - y| < (0.01 : K)) := by
+        rw [abs_of_nonneg (by linarith [(hrange y hyL).2])]
+        intro h; norm_num at hylt h; linarith
+      simpa [fabs] using this
+    have hchain := dedupGo_chain (fun a b => decide (fabs (a - b) < (0.01 : K))) (init ++ [1]) p
+    rw [← hD] at hchain
+    match D, hDhead, hDlast, hDsorted, hsub, hchain with
+    | [], hDhead, _, _, _, _ => simp at hDhead
+    | [x], hDhead, hDlast, _, _, _ =>
+      simp at hDhead hDlast; rw [hDhead] at hDlast; exact absurd hDlast zero_ne_one
+    | x :: y :: drest, hDhead, hDlast, hDsorted, hsub, hchain =>
+      obtain ⟨ht, hne⟩ := tiles_windows2 x (y :: drest) (by simp)
+      have hx0 : x = 0 := by simpa using hDhead
+      have hl : (y :: drest).getLast (by simp) = 1 := by
+        rw [List.getLast?_cons_cons, List.getLast?_eq_some_getLast (by simp)] at hDlast
+        simpa using hDlast
+      rw [hl, hx0] at ht
+      refine ⟨by rw [hx0]; exact ht, by rw [hx0] at hne; rw [hx0]; exact hne, ?_⟩
+      intro w hw
+      have hR := mem_windows2_of_isChain hchain w hw
+      have hle := mem_windows2_of_isChain (List.Pairwise.isChain hDsorted) w hw
+      obtain ⟨hm0, hm1⟩ := mem_of_mem_windows2 w hw
+      have hr0 := hrange w.t0 (hsub.subset hm0)
+      have hr1 := hrange w.t1 (hsub.subset hm1)
+      refine ⟨hr0.1, ?_, hr1.2⟩
+      have : ¬ (|w.t1 - w.t0| < (0.01 : K)) := by simpa [fabs] using hR
+      rw [abs_of_nonneg (sub_nonneg.2 hle)] at this
+      linarith [not_lt.1 this]
+
+/-- THE REPAIR, as a statement about the sub-sections: every window `(t1, t2)` that `subdivide_offset` hands to `curve.subsection` has
+    `t2 − t1 ≥ 0.01`, so a section of positive length `t_m` is only ever split into sub-sections of length at least `0.01·t_m > 0`
+    (before the repair two equal extremities gave a window `(e, e)` and a sub-section of length zero, cf. `zero_length_section_pieces`) -/
+theorem windows_have_positive_length (sec : SectionT K) (hsec : 0 < sec.t_m) (ext : List K)
+    (hext : ∀ x ∈ ext, (0.01 : K) < x ∧ x < (0.99 : K)) :
+    ∀ w ∈ windows2 (splitParams ext), w.t0 + (0.01 : K) ≤ w.t1 ∧ (0.01 : K) * sec.t_m ≤ (section_subsection sec w.t0 w.t1).t_m ∧
+      0 < (section_subsection sec w.t0 w.t1).t_m := by
+  intro w hw
+  obtain ⟨_, h1, _⟩ := (split_params_spec ext hext).2.2 w hw
+  have e : (section_subsection sec w.t0 w.t1).t_m = (w.t1 - w.t0) * sec.t_m := by
+    simp only [section_subsection, section_new, section_t_for_t]; ring
+  have h2 : (0.01 : K) ≤ w.t1 - w.t0 := by linarith
+  have h3 : (0.01 : K) * sec.t_m ≤ (w.t1 - w.t0) * sec.t_m := mul_le_mul_of_nonneg_right h2 hsec.le
+  refine ⟨h1, by rw [e]; exact h3, by rw [e]; exact lt_of_lt_of_le (mul_pos (by norm_num) hsec) h3⟩
+
+example : windows2 (splitParams ([1/2, 1/4, 1/2] : List ℚ)) = [⟨0, 1/4⟩, ⟨1/4, 1/2⟩, ⟨1/2, 1⟩] := by decide +kernel
+
 /-- ONE LEVEL OF `subdivide_offset`: if the recursive calls (only made when `depth < MAX_DEPTH = 5`) return chains of offset leaves over
     the sub-sections they are given, the body returns a chain of offset leaves over its own section.  The offsets handed down
     (`initial + (final − initial)·t`) are the values of the same affine function `o` of the original curve parameter. -/
 theorem body_pieces (w1 w2 w3 w4 : V2 K) (c0 c1 : K) (Inv : SectionT K → Prop)
-    (hInv : ∀ sec p q, Inv sec → Inv (section_subsection sec p q))
+    (hInv : ∀ sec p q, 0 ≤ p → p < q → q ≤ 1 → Inv sec → Inv (section_subsection sec p q))
     (recurse : SectionT K → K → K → Nat → List (Cubic K)) (sec : SectionT K) (depth : Nat) (hsec : Inv sec)
     (hrec : depth < 5 → ∀ sec', Inv sec' → Pieces (fun s c => Inv s ∧ IsOffsetLeaf w1 w2 w3 w4 (fun t => c0 + c1 * t) s c) sec'.t_c (sec'.t_m + sec'.t_c)
       (recurse sec' (c0 + c1 * sec'.t_c) (c0 + c1 * (sec'.t_m + sec'.t_c)) (depth + 1))) :
@@ -562,11 +673,11 @@ theorem body_pieces (w1 w2 w3 w4 : V2 K) (c0 c1 : K) (Inv : SectionT K → Prop)
       (subdivide_offset_body recurse w1 w2 w3 w4 sec (c0 + c1 * sec.t_c) (c0 + c1 * (sec.t_m + sec.t_c)) depth) := by
   generalize ha : c0 + c1 * sec.t_c = a
   generalize hb : c0 + c1 * (sec.t_m + sec.t_c) = b
-  have hrec' : depth < 5 → ∀ p q a' b', a' = a + (b - a) * p → b' = a + (b - a) * q →
+  have hrec' : depth < 5 → ∀ p q a' b', 0 ≤ p → p < q → q ≤ 1 → a' = a + (b - a) * p → b' = a + (b - a) * q →
       Pieces (fun s c => Inv s ∧ IsOffsetLeaf w1 w2 w3 w4 (fun t => c0 + c1 * t) s c) (p * sec.t_m + sec.t_c) (q * sec.t_m + sec.t_c)
       (recurse (section_subsection sec p q) a' b' (depth + 1)) := by
-    intro hd p q a' b' ha' hb'
-    have := hrec hd (section_subsection sec p q) (hInv sec p q hsec)
+    intro hd p q a' b' hp0 hpq hq1 ha' hb'
+    have := hrec hd (section_subsection sec p q) (hInv sec p q hp0 hpq hq1 hsec)
     rw [(subsection_range sec p q).2, (subsection_range sec p q).1] at this
     have e1 : c0 + c1 * (p * sec.t_m + sec.t_c) = a' := by rw [ha', ← ha, ← hb]; ring
     have e2 : c0 + c1 * (q * sec.t_m + sec.t_c) = b' := by rw [hb', ← ha, ← hb]; ring
@@ -577,42 +688,25 @@ theorem body_pieces (w1 w2 w3 w4 : V2 K) (c0 c1 : K) (Inv : SectionT K → Prop)
       (recurse (section_subsection sec 0.0 0.5) a (a + (b - a) * 0.5) (depth + 1) ++
         recurse (section_subsection sec 0.5 1.0) (a + (b - a) * 0.5) b (depth + 1)) := by
     intro hd
-    have L := hrec' hd 0.0 0.5 a (a + (b - a) * 0.5) (by rw [lit0]; ring) rfl
-    have R := hrec' hd 0.5 1.0 (a + (b - a) * 0.5) b rfl (by rw [lit1]; ring)
+    have L := hrec' hd 0.0 0.5 a (a + (b - a) * 0.5) (by norm_num) (by norm_num) (by norm_num) (by rw [lit0]; ring) rfl
+    have R := hrec' hd 0.5 1.0 (a + (b - a) * 0.5) b (by norm_num) (by norm_num) (by norm_num) rfl (by rw [lit1]; ring)
     rw [e0] at L; rw [e1] at R
     exact Pieces.append L R
   have hwin : depth < 5 → ∀ ext : List K, (∀ x ∈ ext, (0.01 : K) < x ∧ x < (0.99 : K)) →
       Pieces (fun s c => Inv s ∧ IsOffsetLeaf w1 w2 w3 w4 (fun t => c0 + c1 * t) s c) sec.t_c (sec.t_m + sec.t_c)
-        ((windows2 (listSortBy (fun a b => !(decide (a > b))) (([(0.0 : K)] ++ ext) ++ [(1.0 : K)]))).flatMap (fun arg_0 =>
+        ((windows2 (splitParams ext)).flatMap (fun arg_0 =>
           recurse (section_subsection sec arg_0.t0 arg_0.t1) (a + (b - a) * arg_0.t0) (a + (b - a) * arg_0.t1) (depth + 1))) := by
     intro hd ext hext
-    obtain ⟨hperm, hsorted⟩ := sortPartialCmp_spec (([(0.0 : K)] ++ ext) ++ [(1.0 : K)])
-    generalize listSortBy (fun a b => !(decide (a > b))) (([(0.0 : K)] ++ ext) ++ [(1.0 : K)]) = L at hperm hsorted
-    have hmem : ∀ x, x ∈ L ↔ x = 0 ∨ x ∈ ext ∨ x = 1 := by
-      intro x; rw [hperm.mem_iff]; simp [lit0, lit1]
-    have hends := sorted_ends (lo := 0) (hi := 1) hsorted ((hmem 0).2 (Or.inl rfl)) ((hmem 1).2 (Or.inr (Or.inr rfl))) (by
-      intro x hx
-      rcases (hmem x).1 hx with rfl | hx | rfl
-      · exact ⟨le_refl _, zero_le_one⟩
-      · obtain ⟨h1, h2⟩ := hext x hx
-        exact ⟨le_trans (by norm_num) h1.le, le_trans h2.le (by norm_num)⟩
-      · exact ⟨zero_le_one, le_refl _⟩)
-    have hlen : 2 ≤ L.length := by rw [hperm.length_eq]; simp
-    match L, hends, hlen with
-    | p :: q :: rest, hends, _ =>
-      obtain ⟨ht, hne⟩ := tiles_windows2 p (q :: rest) (by simp)
-      have hp : p = 0 := by simpa using hends.1
-      have hl : (q :: rest).getLast (by simp) = 1 := by
-        have := hends.2
-        rw [List.getLast?_cons_cons, List.getLast?_eq_some_getLast (by simp)] at this
-        simpa using this
-      rw [hl, hp] at ht
-      rw [hp]
-      have := Pieces.flatMap_tiles (IsLeaf := fun s c => Inv s ∧ IsOffsetLeaf w1 w2 w3 w4 (fun t => c0 + c1 * t) s c) (fun p => p * sec.t_m + sec.t_c)
-        (fun arg_0 => recurse (section_subsection sec arg_0.t0 arg_0.t1) (a + (b - a) * arg_0.t0) (a + (b - a) * arg_0.t1) (depth + 1))
-        _ 0 1 (by rw [← hp]; exact hne) ht (fun s _ => hrec' hd s.t0 s.t1 _ _ rfl rfl)
-      simp only [zero_mul, zero_add, one_mul] at this
-      exact this
+    obtain ⟨ht, hne, hw⟩ := split_params_spec ext hext
+    have := Pieces.flatMap_tiles (IsLeaf := fun s c => Inv s ∧ IsOffsetLeaf w1 w2 w3 w4 (fun t => c0 + c1 * t) s c) (fun p => p * sec.t_m + sec.t_c)
+      (fun arg_0 => recurse (section_subsection sec arg_0.t0 arg_0.t1) (a + (b - a) * arg_0.t0) (a + (b - a) * arg_0.t1) (depth + 1))
+      _ 0 1 hne ht (fun s hs => by
+        obtain ⟨h0, h1, h2⟩ := hw s hs
+        have hpos : (0 : K) < 0.01 := by norm_num
+        have hlt : s.t0 < s.t1 := by linarith
+        exact hrec' hd s.t0 s.t1 _ _ h0 hlt h2 rfl rfl)
+    simp only [zero_mul, zero_add, one_mul] at this
+    exact this
   have hleaf_s : ∀ F, Pieces (fun s c => Inv s ∧ IsOffsetLeaf w1 w2 w3 w4 (fun t => c0 + c1 * t) s c) sec.t_c (sec.t_m + sec.t_c)
       [offset_by_scaling (section_start_point w1 w2 w3 w4 sec) (section_control_points w1 w2 w3 w4 sec).t0 (section_control_points w1 w2 w3 w4 sec).t1
         (section_end_point w1 w2 w3 w4 sec) a b F (unitNormalAt w1 w2 w3 w4 sec (0.0 : K)) (unitNormalAt w1 w2 w3 w4 sec (1.0 : K))] :=
@@ -669,7 +763,7 @@ theorem subdivideOffset_fuel (w1 w2 w3 w4 : V2 K) : ∀ (fuel fuel' : Nat) (sec 
 /-- `subdivide_offset` RETURNS A CHAIN OF OFFSET LEAVES OVER ITS SECTION, for every curve, section, depth and affine offset function `o` of
     the original parameter (called with the offsets `o` at the ends of the section), given enough fuel -/
 theorem subdivideOffset_pieces (w1 w2 w3 w4 : V2 K) (c0 c1 : K) (Inv : SectionT K → Prop)
-    (hInv : ∀ sec p q, Inv sec → Inv (section_subsection sec p q)) : ∀ (fuel : Nat) (sec : SectionT K) (depth : Nat),
+    (hInv : ∀ sec p q, 0 ≤ p → p < q → q ≤ 1 → Inv sec → Inv (section_subsection sec p q)) : ∀ (fuel : Nat) (sec : SectionT K) (depth : Nat),
     1 ≤ fuel → 6 ≤ fuel + depth → Inv sec →
     Pieces (fun s c => Inv s ∧ IsOffsetLeaf w1 w2 w3 w4 (fun t => c0 + c1 * t) s c) sec.t_c (sec.t_m + sec.t_c)
       (subdivideOffset w1 w2 w3 w4 fuel sec (c0 + c1 * sec.t_c) (c0 + c1 * (sec.t_m + sec.t_c)) depth)
@@ -688,7 +782,7 @@ theorem offset_scaling_pieces (features_for_curve : K → CurveFeatures K) (w1 w
   obtain ⟨ht, hne, _, _⟩ := kept_sections_tile features_for_curve
   refine Pieces.flatMap_tiles (IsLeaf := IsOffsetLeaf w1 w2 w3 w4 (fun t => d0 + (d1 - d0) * t)) (fun t => t) _ _ 0 1 hne ht ?_
   intro s _
-  have := (subdivideOffset_pieces w1 w2 w3 w4 d0 (d1 - d0) (fun _ => True) (fun _ _ _ _ => trivial) (maxDepth + 1 - 0) (section_new s.t0 s.t1) 0
+  have := (subdivideOffset_pieces w1 w2 w3 w4 d0 (d1 - d0) (fun _ => True) (fun _ _ _ _ _ _ _ => trivial) (maxDepth + 1 - 0) (section_new s.t0 s.t1) 0
     (by simp [maxDepth]) (by simp [maxDepth]) trivial).mono (fun _ _ h => h.2)
   simp only [section_new, sub_add_cancel] at this
   have e1 : s.t0 * (d1 - d0) + d0 = d0 + (d1 - d0) * s.t0 := by ring
@@ -947,20 +1041,20 @@ theorem zero_length_unit_normal (hs : SqrtSpec K) (w1 w2 w3 w4 : V2 K) (sec : Se
   rw [this, to_unit_vector_zero hs]
   simp [rot90]
 
-/-- WHAT `subdivide_offset` RETURNS FOR A SECTION OF LENGTH ZERO (offset_scaling.rs:172-181 forms one between two equal entries of the
-    sorted extremity list: `find_extremities` returns a parameter twice when `x'` or `y'` has a double root or both vanish together):
-    one or more curves that all START AND END AT THE SOURCE CURVE POINT `C(m)` ITSELF — not at `C(m) + n̂·d`.  The chain of
-    `offset_scaling` then jumps from the offset curve to the source curve and back (`offset_scaling_chain` still holds: the "unit normal"
-    of such a leaf is the zero vector).  In binary64 the polygon of the zero-length section is only nearly a point, its normal is rounding
-    noise, and the pieces land anywhere within `|d|` of `C(m)` or are NaN: found on the real code by the search (class
-    `duplicate_extremity`, e.g. the curve (85,0),(65,90),(45,60),(25,70) with d = 1.39). -/
+/-- WHAT `subdivide_offset` WOULD RETURN FOR A SECTION OF LENGTH ZERO: one or more curves that all START AND END AT THE SOURCE CURVE POINT
+    `C(m)` ITSELF — not at `C(m) + n̂·d`.  This is why the repair matters: before it (no `dedup_by` after the sort, offset_scaling.rs:166-182)
+    two equal entries of the extremity list (`find_extremities` returns a parameter twice when `x'` or `y'` has a double root or both vanish
+    together) gave a window `(e, e)` and hence such a section; the chain jumped from the offset curve to the source curve and back, and in
+    binary64, where the polygon of the zero-length section is only nearly a point and its normal is rounding noise, the pieces landed
+    anywhere within `|d|` of `C(m)` or were NaN (search class `duplicate_extremity`, e.g. (85,0),(65,90),(45,60),(25,70), d = 1.39).
+    With the repair no such section is formed any more: `split_params_spec`, `windows_have_positive_length`, `offset_scaling_leaf_sections`. -/
 theorem zero_length_section_pieces (hs : SqrtSpec K) (w1 w2 w3 w4 : V2 K) (c0 c1 : K) (fuel : Nat) (sec : SectionT K) (depth : Nat)
     (hf : 1 ≤ fuel) (hfd : 6 ≤ fuel + depth) (hc : sec.t_c < 1) (hL : sec.t_m = 0) :
     let cs := subdivideOffset w1 w2 w3 w4 fuel sec (c0 + c1 * sec.t_c) (c0 + c1 * (sec.t_m + sec.t_c)) depth
     cs ≠ [] ∧ ∀ c ∈ cs, c.t0 = curve_point_at_pos w1 w2 w3 w4 sec.t_c ∧ c.t3 = curve_point_at_pos w1 w2 w3 w4 sec.t_c := by
   intro cs
   have hp := subdivideOffset_pieces w1 w2 w3 w4 c0 c1 (fun s => s.t_m = 0 ∧ s.t_c = sec.t_c)
-    (fun s p q h => by
+    (fun s p q _ _ _ h => by
       simp only [section_subsection, section_new, section_t_for_t, h.1, h.2]
       exact ⟨by ring, by ring⟩) fuel sec depth hf hfd ⟨hL, rfl⟩
   refine ⟨hp.ne_nil, ?_⟩
@@ -973,17 +1067,54 @@ theorem zero_length_section_pieces (hs : SqrtSpec K) (w1 w2 w3 w4 : V2 K) (c0 c1
   · rw [hl3, leafEnd, zero_length_unit_normal hs w1 w2 w3 w4 s hc2 hs0, (section_ends_eq w1 w2 w3 w4 s).2, hs0, hsc, zero_add]
     apply V2.ext' <;> simp
 
-/-- THE TRIGGER OF THE ZERO-LENGTH SECTION: if the retained extremity list contains a parameter `e` twice, the window list that
-    `subdivide_offset` iterates over (`[0.0] ++ extremities ++ [1.0]`, sorted, `tuple_windows`, offset_scaling.rs:166-176) contains the window
-    `(e, e)`, and the sub-section built from it has length zero -/
-theorem duplicate_extremity_window (sec : SectionT K) (ext : List K) (e : K) (h : 2 ≤ ext.count e) :
-    T2.mk e e ∈ windows2 (listSortBy (fun a b => !(decide (a > b))) (([(0.0 : K)] ++ ext) ++ [(1.0 : K)])) ∧
-    (section_subsection sec e e).t_m = 0 ∧ (section_subsection sec e e).t_c = e * sec.t_m + sec.t_c := by
-  refine ⟨duplicate_window e _ _ ext h, ?_, ?_⟩
-  · simp only [section_subsection, section_new, section_t_for_t, sub_self]
-  · simp only [section_subsection, section_new, section_t_for_t]
+/-- AFTER THE REPAIR EVERY LEAF SECTION OF `offset_scaling` HAS POSITIVE LENGTH AND LIES IN [0,1]: the chain of `offset_scaling_pieces` with
+    the additional fact `0 ≤ t_c`, `0 < t_m`, `t_m + t_c ≤ 1` for every leaf section (kept sections have `t1 < t2`; halving keeps a positive
+    length; windows are at least 0.01 long by `split_params_spec`) -/
+theorem offset_scaling_leaf_sections (features_for_curve : K → CurveFeatures K) (w1 w2 w3 w4 : V2 K) (d0 d1 : K) :
+    Pieces (fun s c => (0 ≤ s.t_c ∧ 0 < s.t_m ∧ s.t_m + s.t_c ≤ 1) ∧ IsOffsetLeaf w1 w2 w3 w4 (fun t => d0 + (d1 - d0) * t) s c) 0 1
+      (offsetScaling features_for_curve w1 w2 w3 w4 d0 d1) := by
+  unfold offsetScaling
+  rw [offset_scaling_eq]
+  obtain ⟨ht, hne, _, hr⟩ := kept_sections_tile features_for_curve
+  refine Pieces.flatMap_tiles (IsLeaf := fun s c => (0 ≤ s.t_c ∧ 0 < s.t_m ∧ s.t_m + s.t_c ≤ 1) ∧ IsOffsetLeaf w1 w2 w3 w4 (fun t => d0 + (d1 - d0) * t) s c)
+    (fun t => t) _ _ 0 1 hne ht ?_
+  intro s hs
+  obtain ⟨h0, h1, h2⟩ := hr s hs
+  have := subdivideOffset_pieces w1 w2 w3 w4 d0 (d1 - d0) (fun s => 0 ≤ s.t_c ∧ 0 < s.t_m ∧ s.t_m + s.t_c ≤ 1)
+    (fun sec p q hp hpq hq h => by
+      obtain ⟨a0, a1, a2⟩ := h
+      simp only [section_subsection, section_new, section_t_for_t]
+      refine ⟨by have := mul_nonneg hp a1.le; linarith, ?_, ?_⟩
+      · have : 0 < (q - p) * sec.t_m := mul_pos (sub_pos.2 hpq) a1
+        linarith
+      · have : q * sec.t_m ≤ 1 * sec.t_m := mul_le_mul_of_nonneg_right hq a1.le
+        linarith)
+    (maxDepth + 1 - 0) (section_new s.t0 s.t1) 0 (by simp [maxDepth]) (by simp [maxDepth])
+    (by simp only [section_new]; exact ⟨h0, sub_pos.2 h1, by linarith⟩)
+  simp only [section_new, sub_add_cancel] at this
+  have e1 : s.t0 * (d1 - d0) + d0 = d0 + (d1 - d0) * s.t0 := by ring
+  have e2 : s.t1 * (d1 - d0) + d0 = d0 + (d1 - d0) * s.t1 := by ring
+  simp only [section_new, e1, e2]
+  exact this
 
-example : windows2 (listSortBy (fun a b => !(decide (a > b))) (([(0.0 : ℚ)] ++ [1/2, 1/4, 1/2]) ++ [(1.0 : ℚ)])) = [⟨0, 1/4⟩, ⟨1/4, 1/2⟩, ⟨1/2, 1/2⟩, ⟨1/2, 1⟩] := by decide +kernel
+/-- HENCE EVERY CURVE `offset_scaling` RETURNS STARTS AND ENDS ON THE TRUE PARALLEL CURVE OF THE LIBRARY'S OWN UNIT NORMAL (up to the nudge):
+    for every returned curve there is a section `[t_c, t_c + t_m] ⊆ [0,1]` of positive length with
+    `start = C(t_c) + o(t_c)·n̂(t_c + t_m·ε)` and `end = C(t_c + t_m) + o(t_c + t_m)·n̂(t_c + t_m − t_m·ε)`, `n̂(s) = rot90(to_unit_vector(C'(s)))`
+    a vector of length 1 wherever `C'(s) ≠ 0`.  (Before the repair a returned curve could belong to a section of length zero and start on
+    the source curve itself.) -/
+theorem offset_scaling_leaf_normals (hs : SqrtSpec K) (heps : (feps : K) ≠ 1) (features_for_curve : K → CurveFeatures K)
+    (w1 w2 w3 w4 : V2 K) (d0 d1 : K) :
+    ∀ c ∈ offsetScaling features_for_curve w1 w2 w3 w4 d0 d1, ∃ t_c t_m : K, 0 ≤ t_c ∧ 0 < t_m ∧ t_m + t_c ≤ 1 ∧
+      c.t0 = curve_point_at_pos w1 w2 w3 w4 t_c +
+        rot90 (to_unit_vector (hodograph w1 w2 w3 w4 (t_c + t_m * feps))) * (d0 + (d1 - d0) * t_c) ∧
+      c.t3 = curve_point_at_pos w1 w2 w3 w4 (t_m + t_c) +
+        rot90 (to_unit_vector (hodograph w1 w2 w3 w4 (t_c + t_m * (1 - feps)))) * (d0 + (d1 - d0) * (t_m + t_c)) := by
+  intro c hc
+  obtain ⟨sec, ⟨h0, h1, h2⟩, hl0, hl3⟩ := (offset_scaling_leaf_sections features_for_curve w1 w2 w3 w4 d0 d1).all c hc
+  have hc1 : sec.t_c < 1 := by linarith
+  refine ⟨sec.t_c, sec.t_m, h0, h1, h2, ?_, ?_⟩
+  · rw [hl0, leafStart, (section_ends_eq w1 w2 w3 w4 sec).1, unitNormalAt_eq hs w1 w2 w3 w4 sec hc1 h1, lit0, nudged_zero heps]
+  · rw [hl3, leafEnd, (section_ends_eq w1 w2 w3 w4 sec).2, unitNormalAt_eq hs w1 w2 w3 w4 sec hc1 h1, lit1, nudged_one]
 
 /-! ### non-vacuity -/
 
